@@ -59,5 +59,25 @@ pointed out defects of the unchanged tree while reading: D20 and D21 of
 section 11.)
 
 ''' + '\n'.join(table) + '\n'
+pl = json.load(open('/verif/seeded/planned/results.json'))
+rows2 = []
+for k in sorted(pl, key=lambda x: (pl[x]['property'], x)):
+    v = pl[k]
+    st = v['status']
+    if st == 'reported':
+        st = 'reported by %s quick (%s)' % (v['property'], '/'.join(v.get('kinds', [])[:3]))
+    rows2.append('| `%s` | %s | %s | %s |' % (k, v['property'], v['what'], st))
+body += '''
+### Hand-written one-line changes
+
+Besides the independent seeds, a table of one-line changes in the spirit of the
+"planned mutants" of section 4 is kept in `tools/planned.py`; each is applied to
+/repo, the repository's suite is run (a change the suite already catches is not
+interesting and is only listed), the property's quick check is run, and the
+change is undone. Results of the last run (`seeded/planned/results.json`):
+
+| change | property | what | result |
+|---|---|---|---|
+''' + '\n'.join(rows2) + '\n'
 open('/verif/DESIGN.md', 'w').write(head + body)
 print(len(rows), 'rows')
